@@ -7,12 +7,14 @@ from datetime import datetime, timezone, timedelta
 
 from core import LeanDriver, err_kind, canon, CORPUS_DIR
 from gen import fields as genfields
+from gen import miphase as genmiphase
 import lib_c03alias
 from lib_c03alias import AliasOracle, alias_group, alias_nontrivial
 from lib_c03fail import FailOracle, fail_group, fail_battery, fail_random, impl_seq, seq_requests
+from lib_c03stored import StoredOracle, stored_group, stored_nontrivial, stored_battery, stored_random, mi_phase_battery
 
 ID = "C03"
-GENERATORS = [genfields.generate]
+GENERATORS = [genfields.generate, genmiphase.generate]
 LEAN_MODULES = ["FimVerif.Proofs.C03"]
 P = "FimVerif.C03."
 THEOREMS = [P + t for t in (
@@ -35,6 +37,9 @@ THEOREMS = [P + t for t in (
     "ttuple_parse_failed_unchanged", "ttuple_history_type_ok", "ttuple_history_roundtrip",
     "setfields_failed_prefix", "setfields_single_failed_unchanged", "setfields_history_constructible", "setfields_failed_unchanged_counterexample",
     "pathinfo_set_failed_unchanged", "pathinfo_history_domain", "maintenance_failed_unchanged", "maintenance_history_finalized",
+    # handles that outlive finalize (Model/CodecPhase.lean, flags probed by gen/miphase.py)
+    "phase_flags_safe", "phase_finalize_keeps_view", "phase_finalized_immutable", "phase_finalized_immutable_code",
+    "phase_no_copy_at_finalize_counterexample",
 )]
 TRUSTED_BASE = [
     "gen/fields.py: AST patterns for JSONField._set_fields guards / field test (getattribute or membership in __dict__), to_json/to_dict "
@@ -64,6 +69,13 @@ TRUSTED_BASE = [
     "states behind is established by the tt.seq / jf.seq / pi.seq / mi.run correspondence lines (state compared after every step, "
     "rejected ones too) and by the failed-call oracle family on every class (lib_c03fail: value, encoding, decode(encode), ==/hash "
     "before and after every rejected call)",
+    "phase change of a maintenance record (Model/CodecPhase.lean): object identity is modelled as cells of a heap, the record's table and "
+    "the caller's handles; which call copies (add / get on an open record / finalize / get on a finalized record) are flags probed on the "
+    "running code by object identity (gen/miphase.py: finalize() and NodeSliver.set_maintenance_info, one and three entries); that the code "
+    "is such a heap world is established by the phase_mi oracle family (every pre-finalize handle x every route into the finalized state), "
+    "not by a differential driver",
+    "stored attributes (lib_c03stored): the model elements' write / read paths and the property-graph layer between the codec and the stored "
+    "text are exercised by the oracle only (histories of writes per element kind x attribute x write path); they are not modelled in Lean",
     "keys that name a method/class attribute of a class whose _set_fields tests __getattribute__, and the parameter names "
     "self/forgiving/cls/lab, are outside the model (`unmodelled`); the oracle reports the former on the implementation",
 ]
@@ -1200,7 +1212,7 @@ class Watch:
                            expected=srepr(snap), observed=srepr(obj))
 
 
-class Oracle(AliasOracle, FailOracle):
+class Oracle(AliasOracle, FailOracle, StoredOracle):
     def __init__(self, M, res):
         self.M = M
         self.res = res
@@ -1980,7 +1992,7 @@ class Oracle(AliasOracle, FailOracle):
             self.ttuple(c["class"], c["type"], c["val"])
         elif k == "ttuple_name":
             self.ttuple_name(c["class"], c["type"], c["val"], c["via"])
-        elif not self.run_alias_case(c) and not self.run_fail_case(c):
+        elif not self.run_alias_case(c) and not self.run_fail_case(c) and not self.run_stored_case(c):
             raise ValueError("unknown case kind %s" % k)
 
 
@@ -2133,6 +2145,8 @@ def battery(M):
     B["TypedTuple"] += [{"kind": "ttuple", "class": "Label", "type": "mac", "val": "trail "}, {"kind": "ttuple", "class": "Label", "type": "vlan", "val": "  "},
                         {"kind": "ttuple", "class": "Capacity", "type": "ram", "val": 1000}, {"kind": "ttuple", "class": "Capacity", "type": "cpu", "val": 0}]
     fail_battery(M, B)          # every class: calls that are REJECTED must leave the value as it was (lib_c03fail)
+    mi_phase_battery(M, B)      # handles taken while a maintenance record is built, used after every route into the finalized state
+    stored_battery(M, B)        # histories of writes to the attribute of a model element where the text is stored (lib_c03stored)
     return B
 
 
@@ -2225,6 +2239,7 @@ def random_cases(M, rng, n):
         out.append({"kind": "alias_pi", "ero": rng.random() < 0.5, "a2z": to_wire(hops[0]), "z2a": to_wire(hops[1]),
                     "symmetric": hops[0] is not None and rng.random() < 0.3})
     out += fail_random(M, rng, n)
+    out += stored_random(M, rng, n)
     return out
 
 
@@ -2232,6 +2247,8 @@ def is_nontrivial(c):
     k = c["kind"]
     if k.startswith("alias_"):
         return alias_nontrivial(c)
+    if k in ("stored", "phase_mi"):
+        return stored_nontrivial(c)
     if k in ("jsonfield", "update", "jf_history"):
         return bool(c["kw"].get("o")) if isinstance(c["kw"], dict) else bool(c["kw"])
     if k in ("tags", "tags_history"):
@@ -2346,6 +2363,14 @@ def oracle(ctx, res, n=None):
     rng.shuffle(order)
     for g in order:
         run_cases(O, B[g], res)
+    # 1b. the full stored-attribute battery (every element kind x attribute x write path x nothing-set / falsy / None history);
+    #     the fresh processes below run its core.  Quick: a seeded half of it.
+    SB = {}
+    stored_battery(M, SB, full=True)
+    full = [c for g in order for c in SB.get(g, [])]
+    if not ctx.thorough and n <= 2500:
+        full = [c for c in full if rng.random() < 0.5]
+    run_cases(O, full, res)
     # 2. random cases of every class, interleaved
     cases = random_cases(M, rng, n)
     rng.shuffle(cases)
@@ -2387,6 +2412,8 @@ def group_of(case):
         return alias_group(case)
     if k.startswith("fail_"):
         return fail_group(case)
+    if k in ("stored", "phase_mi"):
+        return stored_group(case)
     if k in ("jsonfield", "update", "jf_history", "jsondata", "jd_history"):
         return case["class"]
     return {"tags": "Tags", "tags_history": "Tags", "gateway": "Gateway", "gw_history": "Gateway", "maintenance": "MaintenanceInfo",
